@@ -1344,7 +1344,7 @@ func Run(cfg vh.Config) (*vh.Result, error) {
 		return nil, err
 	}
 	defer os.RemoveAll(tmp)
-	rn := &runner{cfg: cfg, res: res, tmp: tmp, seen: map[string]bool{}, capLimit: cfg.Pick(50, 1200)}
+	rn := &runner{cfg: cfg, res: res, tmp: tmp, seen: map[string]bool{}, capLimit: cfg.Pick(50, 800)}
 	rng := vh.Rng(cfg.Seed, "c19")
 
 	flush := func(name string) error {
@@ -1397,7 +1397,7 @@ func Run(cfg vh.Config) (*vh.Result, error) {
 		return nil, err
 	}
 
-	nTx := cfg.Pick(450, 12000)
+	nTx := cfg.Pick(450, 8000)
 	per := cfg.Pick(250, 400)
 	shard := 1
 	for i := 0; i < nTx; i++ {
@@ -1414,7 +1414,7 @@ func Run(cfg vh.Config) (*vh.Result, error) {
 	}
 	shard++
 
-	nParts := cfg.Pick(1000, 12000)
+	nParts := cfg.Pick(1000, 10000)
 	for i := 0; i < nParts; i++ {
 		rn.runParse(genPartsString(rng))
 		base := pick(rng, []string{"ABCFHZ", "AZ", "BC", "", "ABCDEFGHIJKZ", "AKZ", "KB", "ABBZ"})
@@ -1429,7 +1429,7 @@ func Run(cfg vh.Config) (*vh.Result, error) {
 			shard++
 		}
 	}
-	nSyn := cfg.Pick(90, 1500)
+	nSyn := cfg.Pick(90, 1000)
 	for i := 0; i < nSyn; i++ {
 		rn.runSyntheticNative(cfg.Seed*1000003+int64(i)*7919+19, i)
 		if len(rn.terms) >= 200 {
